@@ -13,8 +13,8 @@ import (
 // value that is being inserted.
 func init() {
 	register(&Rule{
-		Name: "MAPKEYTYPE",
-		Doc: "in every clause labelled MAP of a thrift/protobuf type switch, the argument of Path.ToRaw — which selects the width/kind an int map key is encoded with — has key provenance: it mentions a `kt` field or variable, or a Key()/KeyType() accessor (local variables are resolved through their single definition); passing the inserted value's own type encodes the key with the value's width (or not at all)",
+		Name:     "MAPKEYTYPE",
+		Doc:      "in every clause labelled MAP of a thrift/protobuf type switch, the argument of Path.ToRaw — which selects the width/kind an int map key is encoded with — has key provenance: it mentions a `kt` field or variable, or a Key()/KeyType() accessor (local variables are resolved through their single definition); passing the inserted value's own type encodes the key with the value's width (or not at all)",
 		Configs:  "NP",
 		Floor:    map[string]int{"N": 3, "P": 3},
 		Controls: 1,
